@@ -11,6 +11,7 @@
 import PintModel.Model.RuleShape
 import PintModel.Props.C06
 import PintModel.Gen.Guards
+import PintModel.Model.Inject
 set_option linter.unusedSimpArgs false
 namespace Pint.Props.C02
 open Pint.RuleShape
@@ -90,5 +91,156 @@ theorem demo :
     parseRuleStrict true ⟨false, false, false, false, false, false, true, false, false, false, false, false, false, false, false⟩ = .error ∧
     parseRuleStrict true ⟨false, true, false, true, false, false, true, false, false, false, false, false, false, false, false⟩ = .recording := by
   decide
+
+/-! ## `InjectDiagnostics` (console, GitHub / GitLab / Bitbucket comments): the one panic site and where messages go -/
+section inject
+open Pint.Position Pint.Inject Pint.Props.C06
+
+/-- `InjectDiagnostics` panics (in `slices.Max`) exactly when no diagnostic has any position -/
+theorem inject_panics_iff (n : Nat) (ds : List Diag) : inject n ds = none ↔ ∀ d ∈ ds, d.pos = [] := by
+  unfold inject
+  constructor
+  · intro h
+    cases hm : (allLines ds).max? with
+    | some last => simp [hm] at h
+    | none =>
+      have hnil : allLines ds = [] := List.max?_eq_none_iff.mp hm
+      intro d hd
+      cases hp : d.pos with
+      | nil => rfl
+      | cons p ps =>
+        have : p.line ∈ allLines ds := by
+          simp only [allLines, List.mem_flatMap, List.mem_map]
+          exact ⟨d, hd, p, by simp [hp], rfl⟩
+        rw [hnil] at this; simp at this
+  · intro h
+    have hnil : allLines ds = [] := by
+      simp only [allLines, List.flatMap_eq_nil_iff, List.map_eq_nil_iff]
+      exact h
+    simp [hnil]
+
+/-- every diagnostic pint builds takes its positions from `NewPositionRange`, which never returns none
+(`node_has_position`): one such diagnostic is enough for the reporter not to panic -/
+theorem inject_total (n : Nat) (ds : List Diag) (d : Diag) (hd : d ∈ ds) (hp : d.pos ≠ []) : inject n ds ≠ none := by
+  intro h
+  exact hp ((inject_panics_iff n ds).mp h d hd)
+
+theorem inject_total_npr (n : Nat) (ds : List Diag) (d : Diag) (hd : d ∈ ds)
+    (lines : List (List Nat)) (value : List Nat) (vLine vCol minCol : Nat)
+    (hpos : d.pos = newPositionRange lines value vLine vCol minCol) : inject n ds ≠ none :=
+  inject_total n ds d hd (by rw [hpos]; exact node_has_position lines value vLine vCol minCol)
+
+theorem cells_length (prs : List PR) : (cells prs).length = posLen prs := by
+  induction prs with
+  | nil => simp [cells, posLen]
+  | cons p ps ih =>
+    have : cells (p :: ps) = cells [p] ++ cells ps := by
+      have := cells_append [p] ps
+      simpa using this
+    rw [this, List.length_append, ih]
+    simp [cells, posLen]
+
+theorem cells_line_mem {prs : List PR} {c : Nat × Nat} (h : c ∈ cells prs) : ∃ q ∈ prs, q.line = c.1 := by
+  simp only [cells, List.mem_flatMap, List.mem_map] at h
+  obtain ⟨q, hq, k, _, rfl⟩ := h
+  exact ⟨q, hq, rfl⟩
+
+theorem first_cell_mem {prs : List PR} {p : PR} (hp : p ∈ prs) (hw : p.first ≤ p.last) : (p.line, p.first) ∈ cells prs := by
+  simp only [cells, List.mem_flatMap, List.mem_map, List.mem_range]
+  exact ⟨p, hp, 0, by omega, by simp⟩
+
+theorem foldl_max_mem (ps : List PR) (m : Nat) :
+    ps.foldl (fun m q => max m q.line) m = m ∨ ∃ q ∈ ps, ps.foldl (fun m q => max m q.line) m = q.line := by
+  induction ps generalizing m with
+  | nil => simp
+  | cons p ps ih =>
+    simp only [List.foldl_cons]
+    rcases ih (max m p.line) with h | ⟨q, hq, h⟩
+    · rw [h]
+      by_cases hm : p.line ≤ m
+      · left; omega
+      · right; exact ⟨p, by simp, by omega⟩
+    · right; exact ⟨q, by simp [hq], h⟩
+
+/-- `Lines().Last` of a non-empty list of positions is the line of one of them -/
+theorem linesLast_mem {prs : List PR} (h : prs ≠ []) : ∃ q ∈ prs, linesLast prs = q.line := by
+  cases prs with
+  | nil => exact absurd rfl h
+  | cons p ps =>
+    simp only [linesLast]
+    rcases foldl_max_mem ps p.line with h1 | ⟨q, hq, h1⟩
+    · exact ⟨p, by simp, h1⟩
+    · exact ⟨q, by simp [hq], h1⟩
+
+theorem compress_WF (cs : List (Nat × Nat)) : WF (compress cs) := by
+  have := (cells_foldl_appendPos cs [] (by intro p hp; simp at hp)).2
+  intro p hp
+  exact this p (by simpa [compress] using hp)
+
+/-- the columns a diagnostic asks for are clamped into the value: never an empty selection when the value has
+positions (fix 9ada206: a diagnostic about `for: ""` used to lose its message) -/
+theorem diagPositions_nonempty (d : Diag) (hlen : 1 ≤ posLen d.pos) : diagPositions d ≠ [] := by
+  intro h
+  have hc := readRange_cells (clampFirst d) (clampLast d) d.pos
+  unfold diagPositions at h
+  rw [h] at hc
+  have hl : (((cells d.pos).drop (clampFirst d - 1)).take (clampLast d - (clampFirst d - 1))).length = 0 := by
+    rw [← hc]; simp [cells]
+  simp only [List.length_take, List.length_drop, cells_length] at hl
+  unfold clampLast clampFirst at hl
+  omega
+
+/-- the line a diagnostic's message is written under is a line of the diagnostic's own positions -/
+theorem message_line_is_own_line (d : Diag) (hlen : 1 ≤ posLen d.pos) :
+    ∃ q ∈ d.pos, linesLast (diagPositions d) = q.line := by
+  obtain ⟨p, hp, hl⟩ := linesLast_mem (diagPositions_nonempty d hlen)
+  have hw : p.first ≤ p.last := compress_WF _ p (by simpa [diagPositions, readRange] using hp)
+  have hcell := first_cell_mem hp hw
+  unfold diagPositions at hcell
+  rw [readRange_cells] at hcell
+  have hcell' : (p.line, p.first) ∈ cells d.pos := List.mem_of_mem_drop (List.mem_of_mem_take hcell)
+  obtain ⟨q, hq, hql⟩ := cells_line_mem hcell'
+  exact ⟨q, hq, by rw [hl]; exact hql.symm⟩
+
+/-- **every diagnostic's message is written**: a diagnostic with at least one well-formed position, all of whose lines
+exist in the file, has its message under one of the lines `InjectDiagnostics` writes -/
+theorem message_written (n : Nat) (ds : List Diag) (i : Nat) (hi : i < ds.length)
+    (hlen : 1 ≤ posLen (ds.getD i default).pos)
+    (hfile : ∀ q ∈ (ds.getD i default).pos, 1 ≤ q.line ∧ q.line ≤ n) :
+    ∃ out, inject n ds = some out ∧ ∃ e ∈ out, i ∈ e.2 := by
+  have hd : ds.getD i default ∈ ds := by
+    rw [List.getD_eq_getElem?_getD, List.getElem?_eq_getElem hi]
+    simp
+  obtain ⟨q, hq, hl⟩ := message_line_is_own_line (ds.getD i default) hlen
+  have hqa : q.line ∈ allLines ds := by
+    simp only [allLines, List.mem_flatMap, List.mem_map]
+    exact ⟨_, hd, q, hq, rfl⟩
+  obtain ⟨last, hlast⟩ : ∃ last, (allLines ds).max? = some last := by
+    cases hm : (allLines ds).max? with
+    | some l => exact ⟨l, rfl⟩
+    | none => rw [List.max?_eq_none_iff.mp hm] at hqa; simp at hqa
+  have hle : q.line ≤ last := by
+    have := List.le_max?_getD_of_mem (k := 0) hqa
+    simpa [hlast] using this
+  obtain ⟨h1, h2⟩ := hfile q hq
+  have hinj : inject n ds = some ((List.range n).filterMap fun k =>
+      if k + 1 ≤ last ∧ covered ds (k + 1) = true then
+        some (k + 1, (List.range ds.length).filter fun i => linesLast (diagPositions (ds.getD i default)) = k + 1)
+      else none) := by simp only [inject, hlast]
+  refine ⟨_, hinj, ?_⟩
+  refine ⟨(q.line, (List.range ds.length).filter fun j => linesLast (diagPositions (ds.getD j default)) = q.line), ?_, ?_⟩
+  · simp only [List.mem_filterMap, List.mem_range]
+    refine ⟨q.line - 1, by omega, ?_⟩
+    have e : q.line - 1 + 1 = q.line := by omega
+    simp only [e, covered, List.contains_iff_mem, hqa, hle, and_self, if_true]
+  · simp only [List.mem_filter, List.mem_range, decide_eq_true_eq]
+    exact ⟨hi, hl⟩
+
+/-- non-vacuity: two diagnostics on a 3-line file, one about an empty value (`first = last = 0`) -/
+example :
+    inject 3 [⟨[⟨2, 5, 9⟩], 2, 3⟩, ⟨[⟨3, 7, 7⟩], 0, 0⟩] = some [(2, [0]), (3, [1])] ∧
+    inject 3 [⟨[], 1, 1⟩] = none := by decide
+
+end inject
 
 end Pint.Props.C02
